@@ -21,12 +21,21 @@ def build(spec):
     from xdsl.dialects.builtin import ModuleOp
     from xdsl.ir import Block, Region
 
+    from xdsl.dialects.builtin import DenseArrayBase, i32
+
     vals = []
     ops = []
     for kind, opnds, pre, imm in spec["ops"]:
         rd = riscv.IntRegisterType.from_name(pre) if pre else riscv.Registers.UNALLOCATED_INT
         if kind == "li" or not vals:
             o = rv32.LiOp(imm, rd=rd)
+        elif kind == "pmov":
+            # a two-result op (the only multi-result register op of the dialect): %x, %y = parallel_mov %a, %b
+            ins = [vals[opnds[0] % len(vals)], vals[opnds[1] % len(vals)]]
+            o = riscv.ParallelMovOp(ins, [riscv.Registers.UNALLOCATED_INT, riscv.Registers.UNALLOCATED_INT], DenseArrayBase.from_list(i32, [32, 32]))
+            ops.append(o)
+            vals += list(o.results)
+            continue
         elif kind == "mv":
             o = riscv.MVOp(vals[opnds[0] % len(vals)], rd=rd)
         elif kind == "add":
@@ -51,6 +60,9 @@ def ssa_eval(f):
             rets = [env[id(v)] for v in o.operands]
         elif o.name == "riscv.mv":
             env[id(o.results[0])] = env[id(o.operands[0])]
+        elif o.name == "riscv.parallel_mov":
+            for r, v in zip(o.results, o.operands):
+                env[id(r)] = env[id(v)]
         else:
             env[id(o.results[0])] = (o.name, tuple(env[id(v)] for v in o.operands))
     return rets
@@ -73,6 +85,20 @@ def machine_eval(f):
             vals.append(got)
         if o.name == "riscv_func.return":
             return vals, None
+        if o.name == "riscv.parallel_mov":
+            # simultaneous assignment: every output register receives its input's value; two outputs in one register clobber each other
+            written = {}
+            for res, val in zip(o.results, vals):
+                if not res.type.is_allocated:
+                    return None, f"result of {o.name} left unallocated"
+                ssa[id(res)] = val
+                r = res.type.register_name.data
+                if r != "zero":
+                    if r in written:
+                        return None, f"two results of one {o.name} are both assigned register {r}"
+                    written[r] = val
+            regs.update(written)
+            continue
         res = o.results[0]
         if not res.type.is_allocated:
             return None, f"result of {o.name} left unallocated"
@@ -133,8 +159,8 @@ def gen(rnd):
     n = rnd.randrange(1, 7)
     ops = []
     for i in range(n):
-        kind = rnd.choice(["li", "add", "add", "mul", "mv"])
-        pre = rnd.choice(["a0", "a1", "t0", "t0", "t1"]) if rnd.random() < 0.25 else None
+        kind = rnd.choice(["li", "add", "add", "mul", "mv", "pmov"])
+        pre = rnd.choice(["a0", "a1", "t0", "t0", "t1"]) if rnd.random() < 0.25 and kind != "pmov" else None
         ops.append([kind, [rnd.randrange(0, 8), rnd.randrange(0, 8)], pre, rnd.choice([0, 0, 1, 5])])
     spec = {"ops": [tuple(o) for o in ops], "ret": [rnd.randrange(0, 8) for _ in range(rnd.randrange(0, 3))]}
     return make_valid(spec)
@@ -147,30 +173,38 @@ def make_valid(spec):
     """
     ops = [list(o) for o in spec["ops"]]
     n = len(ops)
-
-    def operands(i):
-        kind = ops[i][0]
-        if kind == "li" or i == 0:
-            return []
-        k = 1 if kind == "mv" else 2
-        return [ops[i][1][j] % i for j in range(k)]
-
-    last = {i: i for i in range(n)}
+    # value numbering: op i defines the values defs[i] (two for pmov); its operands are picked among the values defined before it
+    defs, uses, nv = [], [], 0
+    for i, (kind, picks, _pre, _imm) in enumerate(ops):
+        if kind == "li" or nv == 0:
+            uses.append([])
+            k = 1
+        elif kind == "pmov":
+            uses.append([picks[0] % nv, picks[1] % nv])
+            k = 2
+        else:
+            uses.append([picks[j] % nv for j in range(1 if kind == "mv" else 2)])
+            k = 1
+        defs.append(list(range(nv, nv + k)))
+        nv += k
+    def_at = {v: i for i, vs in enumerate(defs) for v in vs}
+    last = dict(def_at)
     for i in range(n):
-        for v in operands(i):
+        for v in uses[i]:
             last[v] = max(last[v], i)
     for r in spec["ret"]:
-        if n:
-            last[r % n] = n
+        if nv:
+            last[r % nv] = n
     taken = {}
     for i in range(n):
         pre = ops[i][2]
         if pre is None:
             continue
-        if any(not (last[j] <= i or last[i] <= j) or last[j] > i for j in taken.get(pre, [])):
+        v = defs[i][0]
+        if any(not (last[w] <= i or last[v] <= def_at[w]) or last[w] > i for w in taken.get(pre, [])):
             ops[i][2] = None
         else:
-            taken.setdefault(pre, []).append(i)
+            taken.setdefault(pre, []).append(v)
     return {"ops": [tuple(o) for o in ops], "ret": list(spec["ret"])}
 
 
@@ -195,5 +229,5 @@ def explore(tier, seed):
             seen.add(f["key"])
             fails.append(f)
     return {"cases": cases, "failures": fails, "exhaustive": False,
-            "bound": f"{n} seeded single-block riscv functions (<= 6 ops from li/add/mul/mv, values used several times, <= 2 returned, pre-allocated a0/a1/t0), "
+            "bound": f"{n} seeded single-block riscv functions (<= 6 ops from li/add/mul/mv and the two-result parallel_mov with used and unused results, values used several times, <= 2 returned, pre-allocated a0/a1/t0), "
                      "pools of 1/2/3/5 integer registers and an infinite-register run; allocated code executed on a register machine"}
